@@ -114,6 +114,20 @@ def uninstall_model_hash():
 
 
 # ---------------------------------------------------------------------------------------------
+def _decide(b):
+    """truth value of a possibly symbolic bool, or of a thunk computing one from symbolic values.  When the
+    caller runs natively inside a CrossHair path (NoTracing), tracing is resumed just for this decision, so
+    the solver forks the path here."""
+    if b is True or b is False:
+        return b
+    import sys
+    tr = sys.modules.get("crosshair.tracers")
+    if tr is not None and not tr.is_tracing():
+        with tr.ResumedTracing():
+            return bool(b() if callable(b) else b)
+    return bool(b() if callable(b) else b)
+
+
 class DbWriteFailure(Exception):
     """raised by FailingDict at the chosen write"""
 
@@ -150,7 +164,7 @@ class FailingDict(dict):
 
     def __init__(self, *a):
         super().__init__(*a)
-        self.fail_at = -1
+        self.fail_at = None
         self.nwrites = 0
         self.fired = False
 
@@ -160,30 +174,17 @@ class FailingDict(dict):
         self.fired = False
 
     def disarm(self):
-        self.fail_at = -1
+        self.fail_at = None
 
     def __setitem__(self, k, v):
-        if self.fail_at >= 0:
+        if self.fail_at is not None and _decide(lambda: self.fail_at >= 0):
             n = self.nwrites
             self.nwrites = n + 1
-            if n == self.fail_at:
+            if _decide(lambda: n == self.fail_at):
                 self.fired = True
-                self.fail_at = -1
+                self.fail_at = None
                 raise DbWriteFailure(n)
         super().__setitem__(k, v)
-
-
-def _decide(b):
-    """truth value of a possibly symbolic bool.  When the caller runs natively inside a CrossHair path
-    (NoTracing), tracing is resumed just for this decision, so the solver forks the path here."""
-    if b is True or b is False:
-        return b
-    import sys
-    tr = sys.modules.get("crosshair.tracers")
-    if tr is not None and not tr.is_tracing() and not isinstance(b, (bool, int)):
-        with tr.ResumedTracing():
-            return bool(b)
-    return bool(b)
 
 
 class HidingDict(dict):
